@@ -1,4 +1,4 @@
-REPO_FIX_COMMITS = ['2d7a94d', '41c6b34', '15c99e7', '0752c0c', '7f84765', 'af57352', 'e33a24d', '5bdc6b3']
+REPO_FIX_COMMITS = ['2d7a94d', '41c6b34', '15c99e7', '0752c0c', '7f84765', 'af57352', 'e33a24d', '5bdc6b3', '08843a4', '3e03bb0']
 NOT_APPLICABLE = {}
 CHECKS = {
  'C18': dict(
@@ -58,4 +58,14 @@ CHECKS = {
   note='Centred systems only (see DESIGN 3/C05); round-off floor stated in the evidence rule; near-parabolic conics '
        'carry the weakened floor of known finding C05-parabola-cancellation.',
   design='3/C05'),
+ 'C01': dict(
+  technique='model-based testing of generated edit histories (Hypothesis-generated operation lists interpreted against '
+            'the library and a dictionary model; the whole history shrinks as one value)',
+  level='After every operation of a generated history the complete observable prescription (vertices, radii, conics, '
+        'coefficients, tilts/decentres, media on both sides of every surface, stop and primary flags) must equal a model '
+        'updated with the documented semantics; pickup relations and solve heights (ABCD reference) are checked after '
+        'update(). Counter-example search over histories of up to 30 steps.',
+  note='Well-founded pickup/solve sets only (DESIGN 3/C01); histories are generated as data rather than with '
+       'RuleBasedStateMachine so that they are JSON replay files as they stand.',
+  design='3/C01'),
 }
